@@ -522,7 +522,11 @@ ADDED3 = {
     "C16": "Scheduler directives after the first command count as ignored.",
     "C17": "Float grid labels (titles read back as the coordinate), a label "
            "occurring twice on z, cells centred on their coordinates.",
-    "C18": "Aggregation without any mapped dimension, infinite values.",
+    "C18": "Aggregation without any mapped dimension, infinite values; x "
+           "that is itself a result varying from line to line (linked "
+           "along a dimension) with NaNs in x, in y, in both, with and "
+           "without join_across_missing: a point is drawn exactly where "
+           "both exist.",
 }
 
 
